@@ -112,6 +112,9 @@ PROPS = {
                 assumptions=_ASSUME + ['the model carries only the call-graph argument (dry_run is a function of view '
                                        'and request); the weight is on the digest comparison over all columns',
                                        'txpool SpentInputs and the off-chain database are not reachable from '
-                                       'Executor::dry_run and are not instantiated'],
+                                       'Executor::dry_run and are not instantiated',
+                                       'dry runs are issued one at a time against Executor::dry_run: interference between '
+                                       'CONCURRENT Producer calls (locks taken by Producer::dry_run, a dry run in flight during '
+                                       'block production) is not explored; the seeded change C45-1 is therefore missed (open gap)'],
                 level='translation_validation'),
 }
